@@ -349,7 +349,8 @@ def _frame(ctx, SPEC):
             if nm in ("reserved", "unused"):
                 ctx.check(desc == {"always": "0"}, RE, key, body["file"], "%s bit must be written as 0" % nm, observed=desc)
             elif nm == "content_checksum_flag":
-                ctx.check(desc == {"self.content_checksum": "1", "else": "0"}, RE, key, body["file"],
+                ctx.check(desc in ({"self.content_checksum": "1", "else": "0"}, {"always": "(self.content_checksum as )"},
+                                   {"always": "(self.content_checksum as u64)"}, {"always": "(self.content_checksum as usize)"}), RE, key, body["file"],
                           "checksum bit must be 1 exactly when content_checksum is set", observed=desc)
             elif nm == "single_segment_flag":
                 ctx.check(desc == {"self.single_segment": "1", "else": "0"}, RE, key, body["file"],
